@@ -17,7 +17,9 @@ All enumerations here are deterministic (sorted, no sets iterated).
 """
 import contextlib
 import ctypes
+import dis
 import functools
+import gc
 import glob
 import itertools
 import json
@@ -162,6 +164,9 @@ def skedder_metas(name="verif", period=0.125, plan="main.flo"):
     return list(sk.metas), list(sk.preloads)
 
 
+_BUILDS = [0]
+
+
 def build(text, extra_files=None, limit=5.0, name=None, metas=False):
     """Build `text` through real.build_text; additionally returns why a build returned False."""
     name = name or os.path.join(MEM_DIR, "main.flo")
@@ -172,11 +177,18 @@ def build(text, extra_files=None, limit=5.0, name=None, metas=False):
     if metas:
         ms, ps = skedder_metas(plan=os.path.basename(name))
         building.Builder = functools.partial(old_builder, metas=ms, preloads=ps)
+    # keep the collector out of the guarded build: finalisers of earlier builds' framer runners would
+    # otherwise run (and swallow a Watchdog) at arbitrary points inside it
+    gc.disable()
     try:
         res = real.build_text(text, extra_files=extra_files, limit=limit, name=name)
     finally:
         building.console = old_console
         building.Builder = old_builder
+        gc.enable()
+    _BUILDS[0] += 1
+    if _BUILDS[0] % 25 == 0:
+        gc.collect()
     reason = ""
     if res.kind == "false":
         for m in reversed(cap.msgs):
@@ -272,29 +284,6 @@ def innermost_ioflo(tb):
         if fs.filename.startswith(root):
             return os.path.basename(fs.filename), fs.name, (fs.line or "").strip()
     return "?", "?", ""
-
-
-def classify(built):
-    """C14 oracle.  Returns (accepted, group, detail).
-    accepted outcomes: ok, build returned False, ParseError, ResolveError, any other class of
-    ioflo.base.excepting, and ValueError raised inside a Convert2* converter or by an explicit
-    `raise ValueError` statement in ioflo (deliberate report of a bad script value)."""
-    k = built.kind
-    if k in ("ok", "false"):
-        return True, k, ""
-    if k == "Watchdog":
-        return False, "Watchdog|build does not terminate", "no result within the time limit"
-    exc = built.exc
-    base, func, line = innermost_ioflo(built.tb)
-    if isinstance(exc, EXCEPTING):
-        return True, k, ""
-    if isinstance(exc, ValueError) and type(exc) is ValueError:
-        if func.startswith("Convert2"):
-            return True, "ValueError(Convert2)", ""
-        if line.startswith("raise ValueError"):
-            return True, "ValueError(explicit)", ""
-    group = "%s|%s:%s|%s" % (k, base, func, normalise_message(str(exc)))
-    return False, group, "%s: %s (at %s:%s `%s`)" % (k, exc, base, func, line[:80])
 
 
 # ----------------------------------------------------------------------------- plans
@@ -523,7 +512,39 @@ def responsible_ioflo(tb):
     return inner or ("?", "?", "")
 
 
-def classify(built):  # noqa: F811  (final definition; supersedes the one above)
+_LOOPY = {}
+
+
+def _has_loop(code):
+    r = _LOOPY.get(code)
+    if r is None:
+        r = _LOOPY[code] = any(i.opname.startswith("JUMP_BACKWARD") or i.opname == "FOR_ITER"
+                               for i in dis.get_instructions(code))
+    return r
+
+
+def hang_owner(exc):
+    """(basename, function) of the innermost ioflo frame of an interrupted build whose code contains a loop:
+    a stable name for the spinning loop wherever inside its body the interrupt landed."""
+    root = os.path.join(core.REPO, "ioflo") + os.sep
+    frames = []
+    tb = exc.__traceback__ if exc is not None else None
+    while tb is not None:
+        frames.append(tb.tb_frame.f_code)
+        tb = tb.tb_next
+    inner = None
+    for code in reversed(frames):
+        if code.co_filename.startswith(root):
+            if inner is None:
+                inner = code
+            if _has_loop(code):
+                return os.path.basename(code.co_filename), code.co_name
+    if inner is not None:
+        return os.path.basename(inner.co_filename), inner.co_name
+    return "?", "?"
+
+
+def classify(built):
     """C14 oracle.  Returns (accepted, group, detail).
     accepted: ok, build returned False, ParseError, ResolveError, any other exception class defined in
     ioflo.base.excepting, ValueError raised inside a Convert2* converter, ValueError raised by an explicit
@@ -533,8 +554,7 @@ def classify(built):  # noqa: F811  (final definition; supersedes the one above)
         return True, k, ""
     exc = built.exc
     if k == "Watchdog":
-        tb = traceback.extract_tb(exc.__traceback__) if exc is not None else []
-        base, func, line = responsible_ioflo(tb)
+        base, func = hang_owner(exc)
         return False, "Watchdog|%s:%s|does not terminate" % (base, func), \
             "build did not terminate within the time limit (interrupted in %s:%s)" % (base, func)
     if isinstance(exc, EXCEPTING):
@@ -749,13 +769,15 @@ def gen_plan_mutations(text, alphabet):
 FRAME_NAMES = ["a", "b", "c", "d"]
 
 
-def gen_link_graphs(n, with_next=False):
+def gen_link_graphs(n, max_unders=None):
     """Every assignment of `in X` / `under Y` (X, Y in none, each frame incl. itself, dangling 'zz') over n
-    frames; optionally also `next`.  Yields (label, script)."""
+    frames, with at most max_unders frames carrying an `under` (None: no limit).  Yields (label, script)."""
     names = FRAME_NAMES[:n]
     targets = [None] + names + ["zz"]
     for overs in itertools.product(targets, repeat=n):
         for unders in itertools.product(targets, repeat=n):
+            if max_unders is not None and sum(1 for u in unders if u) > max_unders:
+                continue
             lines = ["house h", "framer f be active first a"]
             label = []
             for nm, ov, un in zip(names, overs, unders):
